@@ -25,6 +25,6 @@ def tld (n : Nat) : List (Expr N) × Expr N := TriangularAffine.transform_and_lo
 
 /-- `AbstractTransformed._log_prob(x)`: `z, ld = bijection.inverse_and_log_det(x); base._log_prob(z) + ld` -/
 def logProb (n : Nat) : Expr N :=
-  Expr.add (Vec.sum ((ild n).1.map (fun z => StandardNormal.log_prob.ast z))) (ild n).2
+  Expr.add (Vec.sum ((ild n).1.map (fun z => Expr.letE 500000 z (StandardNormal.log_prob.ast (Expr.var 500000))))) (ild n).2
 
 end AdMvn
